@@ -12,8 +12,8 @@ import (
 // material (they would only add noise: both spellings contain them). The IN-list classes that are C06's own
 // targets (case-insensitive strings, mixed integer/decimal literals) are switched on for part of the in-or
 // cases (targetDomain).
-var baseDomain = g6blib.Domain{NoMixedInNum: true, NoFracOnInt: true, NoCIInList: true, NoDecKeyOnIntIndex: true, NoFracEqOnIndexedDec: true, NoArithInListLeft: true, NoLikeOnCIFunc: true}
-var targetDomain = g6blib.Domain{NoFracOnInt: true, NoDecKeyOnIntIndex: true, NoFracEqOnIndexedDec: true, NoArithInListLeft: true, NoLikeOnCIFunc: true}
+var baseDomain = g6blib.Domain{NoMixedInNum: true, NoFracOnInt: true, NoCIInList: true, NoDecKeyOnIntIndex: true, NoFracEqOnIndexedDec: true, NoArithInListLeft: true, NoLikeOnCIFunc: true, NoNegOnDateFunc: true}
+var targetDomain = g6blib.Domain{NoFracOnInt: true, NoDecKeyOnIntIndex: true, NoFracEqOnIndexedDec: true, NoArithInListLeft: true, NoLikeOnCIFunc: true, NoNegOnDateFunc: true}
 
 func genPair(rnd *rand.Rand, sc *g6blib.Schema, uniq string) *pairCase {
 	switch k := rnd.Intn(20); {
@@ -114,7 +114,7 @@ func genPredRule(rnd *rand.Rand, sc *g6blib.Schema, rule string) *pairCase {
 		}
 		return []spelling{{name: names[0], query: mk(q)}, {name: names[1], query: mk(rw)}}
 	}
-	return &pairCase{rule: rule, spells: rebuild(p), shape: shape + "|" + pos + "|" + rewrittenShapes(p, want), pred: p, rebuild: rebuild}
+	return &pairCase{rule: rule, spells: rebuild(p), shape: shape + "|" + pos + "|" + rewrittenShapes(p, want), pred: p, rebuild: rebuild, pos: pos, nid: 1 + strings.Count(ids, ",")}
 }
 
 // rewrittenShapes lists the skeletons of the nodes the rule rewrites.
